@@ -260,9 +260,26 @@ def replay_misc(rp, binp, workdir, ctx):
     return any(v["signature"] == rp["signature"] for v in r["violations"])
 
 
+# ---------------------------------------------------------------------------------------------- C13 (Apalache, design level)
+
+def run_ind_attesters(ctx, prop, tier, seed, binp, workdir):
+    """Inductive invariant 1 <= t <= |attesters| of the attester-manager rules over 10 strings, discharged by Apalache
+    (Init => Inv is Init = Inv; Inv /\\ Next => Inv' at length 1).  MC_Attesters binds those rules to CCTP.tla."""
+    scratch = tempfile.mkdtemp(prefix="apalache.", dir=workdir)
+    shutil.copy(os.path.join(ctx["VERIF"], "spec", "Ind_Attesters.tla"), scratch)
+    r = subprocess.run(["timeout", "900", "apalache-mc", "check", "--cinit=CInit", "--init=Init", "--inv=Inv", "--length=1", "Ind_Attesters.tla"],
+                       cwd=scratch, capture_output=True, text=True)
+    out = r.stdout + r.stderr
+    shutil.rmtree(scratch, ignore_errors=True)
+    if r.returncode != 0 or "The outcome is: NoError" not in out:
+        raise ctx["Machinery"]("Apalache did not discharge the inductive invariant of Ind_Attesters.tla:\n" + out[-2000:])
+    return dict(violations=[], coverage=dict(apalache=dict(module="Ind_Attesters.tla", invariant="Inv", inductive_step_length=1,
+                                                           attester_strings=10, outcome="NoError")))
+
+
 # ---------------------------------------------------------------------------------------------- dispatch
 
-FLOWS = {"genesis": run_genesis, "codec": run_codec, "determinism": run_determinism, "misc": run_misc}
+FLOWS = {"genesis": run_genesis, "codec": run_codec, "determinism": run_determinism, "misc": run_misc, "ind_attesters": run_ind_attesters}
 REPLAYS = {"genesis": replay_genesis, "reimport": replay_genesis, "codec": replay_codec, "det": replay_det, "misc": replay_misc}
 
 
